@@ -12,7 +12,7 @@ CONSTANTS VRPairs,     \* <</V, /R>> pairs of the encryption dictionary (the dec
           Surrounds,   \* set of subsets of {3, 6, 9, 12} to combine with
           DocHi,       \* values of hi for which end-to-end documents are requested
           DocSurs,     \* surrounding-bit sets for which end-to-end documents are requested
-          FullDocs,    \* FALSE: documents only where the two bits of the other revision layout are both set or both clear
+          DocOther,    \* which settings of the two bits of the other revision layout get documents: subset of {"none", "all", "mixed"}
           E2EAlgs,     \* algorithms for which end-to-end documents are requested
           ApiAlgs,     \* algorithms for which the real file operations are run end to end
           ApiRels,     \* relevant-bit sets for which the real file operations are run end to end
@@ -67,6 +67,7 @@ EmitCase == Emit => PrintT(<<"CASE", ToJson(Case)>>)
 DocAlgs == {a \in E2EAlgs : Rev(a) = R /\ AlgV(a) = V}
 Doc(a) == [alg |-> a, p |-> P, api |-> (a \in ApiAlgs /\ rel \in ApiRels /\ sur \in ApiSurs)]
 OtherBits == IF R = 2 THEN {10, 11} ELSE {4, 5}
-DocWanted == FullDocs \/ (rel \cap OtherBits) \in {{}, OtherBits}
+OtherSetting == IF rel \cap OtherBits = {} THEN "none" ELSE IF OtherBits \subseteq rel THEN "all" ELSE "mixed"
+DocWanted == OtherSetting \in DocOther
 EmitDocs == (Emit /\ hi \in DocHi /\ sur \in DocSurs /\ DocWanted) => \A a \in DocAlgs : PrintT(<<"DOC", ToJson(Doc(a))>>)
 =============================================================================
